@@ -57,3 +57,13 @@ let register_f64 reg =
   reg "f64_lt" (function [a; b] -> show_bool (f_lt (fb a) (fb b)) | _ -> failwith "lt");
   reg "f64_le" (function [a; b] -> show_bool (f_le (fb a) (fb b)) | _ -> failwith "le")
 let () = section register_f64
+
+(* ---- C13 *)
+let register_c13 reg =
+  reg "jitter" (function
+    | [m; rates; cs] -> "ok " ^ show_zlist (jit_run_f64 (zv m) (zlist rates) (zlist cs))
+    | _ -> failwith "jitter: arity");
+  reg "jitter_ok" (function
+    | [m; rates; cs; outs] -> show_bool (jit_ok (zv m) (zlist rates) (zlist outs))
+    | _ -> failwith "jitter_ok: arity")
+let () = section register_c13
